@@ -545,6 +545,19 @@ CORPUS += [
 
 CORPUS += [
     # ---------------------------------------------------------------- C18
+    V("C18", "cvrptw-repair-clamped-at-zero", "rl4co/envs/routing/cvrptw/generator.py", 'min_tmp[mask] = torch.max(\n                dist[mask].int(), min_tmp[mask] - 1\n            )', 'min_tmp[mask] = torch.clamp(min_tmp[mask] - 1, min=0)', 'C18.h'),
+    V("C18", "cvrptw-repair-unclamped", "rl4co/envs/routing/cvrptw/generator.py", 'min_tmp[mask] = torch.max(\n                dist[mask].int(), min_tmp[mask] - 1\n            )', 'min_tmp[mask] = min_tmp[mask] - 1', 'C18.h'),
+    V("C18", "cvrptw-start-from-zero", "rl4co/envs/routing/cvrptw/generator.py", 'min_ts = (dist + (upper_bound - dist) * ts_1).int()', 'min_ts = (upper_bound * ts_1).int()', 'C18.h'),
+    V("C18", "cvrptw-no-return-margin", "rl4co/envs/routing/cvrptw/generator.py", 'upper_bound = self.max_time - dist - durations', 'upper_bound = self.max_time - durations', 'C18.h'),
+    V("C18", "cvrptw-repair-ceil-upper", "rl4co/envs/routing/cvrptw/generator.py", 'torch.floor(upper_bound[mask]).int()', 'torch.ceil(upper_bound[mask]).int()', 'C18.h'),
+    V("C18", "cvrptw-assert-nonstrict", "rl4co/envs/routing/cvrptw/generator.py", 'min_times < max_times\n        ), "Please', 'min_times <= max_times\n        ), "Please', 'C18.h'),
+    V("C18", "cvrptw-scale-times-only", "rl4co/envs/routing/cvrptw/generator.py", '            td["locs"] = td["locs"] / self.max_time\n', '', 'C18.h'),
+    V("C18", "cvrptw-end-past-bound", "rl4co/envs/routing/cvrptw/generator.py", 'max_ts = (dist + (upper_bound - dist) * ts_2).int()', 'max_ts = (dist + (upper_bound - dist) * ts_2 + 1).int()', 'C18.h'),
+    V("C18", "eq-cvrptw-draw-commuted", "rl4co/envs/routing/cvrptw/generator.py", 'min_ts = (dist + (upper_bound - dist) * ts_1).int()', 'min_ts = (ts_1 * (upper_bound - dist) + dist).int()', None),
+    V("C18", "eq-cvrptw-repair-maximum", "rl4co/envs/routing/cvrptw/generator.py", 'min_tmp[mask] = torch.max(\n                dist[mask].int(), min_tmp[mask] - 1\n            )', 'min_tmp[mask] = torch.maximum(min_tmp[mask] - 1, dist[mask].int())', None),
+    V("C18", "eq-cvrptw-repair-clamp-dist", "rl4co/envs/routing/cvrptw/generator.py", 'min_tmp[mask] = torch.max(\n                dist[mask].int(), min_tmp[mask] - 1\n            )', 'min_tmp[mask] = (min_tmp[mask] - 1).clamp(min=dist[mask].int())', None),
+    V("C18", "eq-cvrptw-assert-flipped", "rl4co/envs/routing/cvrptw/generator.py", 'min_times < max_times\n        ), "Please', 'max_times > min_times\n        ), "Please', None),
+    V("C18", "eq-cvrptw-wider-second-repair", "rl4co/envs/routing/cvrptw/generator.py", 'max_tmp[mask] + 1,', 'max_tmp[mask] + 2,', None),
     V("C18", "op-generator-device-again", R + "op/generator.py", "prize = torch.ones(*batch_size, self.num_loc)", "prize = torch.ones(*batch_size, self.num_loc, device=self.device)", "C18.a"),
     V("C18", "cvrp-generator-renamed-attr", R + "cvrp/generator.py", "self.vehicle_capacity", "self.vehicle_cap", "C18.d", count=99),
     V("C18", "eq-tsp-generator-rename-local", R + "tsp/generator.py", "        locs = self.loc_sampler.sample((*batch_size, self.num_loc, 2))", "        coords = self.loc_sampler.sample((*batch_size, self.num_loc, 2))\n        locs = coords", None),
